@@ -2,7 +2,9 @@
 TRAITS = ["FromMeta", "FromDeriveInput", "FromField", "FromVariant", "FromTypeParam", "FromAttributes"]
 CASE_RULES = ["lowercase", "PascalCase", "camelCase", "snake_case", "SCREAMING_SNAKE_CASE", "kebab-case"]
 FIELD_TYPES = ["u8", "String", "bool", "Option<u8>", "Vec<String>", "T", "Vec<T>", "Option<U>", "std::collections::HashMap<String, T>",
-               "<T as Tr>::X", "&'a str", "Box<dyn Fn(U) -> T>", "[T; 2]", "(T, u8)", "a::T", "syn::Ident", "darling::util::Flag"]
+               "<T as Tr>::X", "&'a str", "Box<dyn Fn(U) -> T>", "[T; 2]", "(T, u8)", "a::T", "syn::Ident", "darling::util::Flag",
+               # bound syntax beyond traits and lifetimes (accepted by syn wherever a bound list is)
+               "fn(impl Sized + use<T>)", "Box<dyn Tr + use<'a, T>>", "fn(impl Sized + use<>) -> u8"]
 MAGIC = {"FromMeta": [], "FromDeriveInput": ["ident", "attrs", "vis", "generics", "data"],
          "FromField": ["ident", "attrs", "vis", "ty"], "FromVariant": ["ident", "attrs", "discriminant", "fields"],
          "FromTypeParam": ["ident", "attrs", "bounds", "default"], "FromAttributes": ["attrs"]}
